@@ -24,6 +24,7 @@
 #include <string>
 
 namespace hgraph::stdlib { void register_json_operators() {} }
+namespace hgv_dyn { void run_map_case(const hgv::Case &c, hgv::Out &out); }   // lifecycle_dyn.cpp
 
 using namespace hgraph;
 using hgv::Line;
@@ -91,12 +92,32 @@ namespace
     struct Obs : LifecycleObserver
     {
         hgv::Out *out;
+        // "15 kind n": the observer itself throws in the n-th notification of that kind
+        std::vector<std::pair<std::int64_t, std::int64_t>> throws;
+        std::map<std::int64_t, std::int64_t>               seen;
         explicit Obs(hgv::Out *o) : out(o) {}
-        void g(std::int64_t k, const GraphView &gr) { emit(*out, k, us(gr.evaluation_time()), graph_path(gr)); }
+        void maybe_throw(std::int64_t k)
+        {
+            const std::int64_t n = seen[k]++;
+            for (const auto &[kind, at] : throws)
+            {
+                if (kind == k && at == n)
+                {
+                    out->line({25, k, n});
+                    throw std::runtime_error("hgv observer boom");
+                }
+            }
+        }
+        void g(std::int64_t k, const GraphView &gr)
+        {
+            emit(*out, k, us(gr.evaluation_time()), graph_path(gr));
+            maybe_throw(k);
+        }
         void n(std::int64_t k, const NodeView &nd)
         {
             GraphView gr = nd.graph();
             emit(*out, k, us(gr.evaluation_time()), node_path(nd));
+            maybe_throw(k);
         }
         void on_before_start_graph(const GraphView &x) override { g(1, x); }
         void on_after_start_graph(const GraphView &x) override { g(2, x); }
@@ -310,6 +331,10 @@ namespace
 
     void run_case(const hgv::Case &c, hgv::Out &out)
     {
+        for (const Line &l : c)
+        {
+            if (l[0] == 12) { hgv_dyn::run_map_case(c, out); return; }
+        }
         Ctx ctx;
         ctx.out = &out;
         std::int64_t start = 1, end = 5, cleanup = 1;
@@ -379,6 +404,10 @@ namespace
         }
 
         Obs obs{&out};
+        for (const Line &l : c)
+        {
+            if (l[0] == 15 && l.size() >= 3) { obs.throws.emplace_back(l[1], l[2]); }
+        }
         try
         {
             GraphExecutorBuilder eb;
